@@ -84,7 +84,7 @@ K("C20/bitboard/shifts-flips", ["C20", "C18"], BB + "c20_bb_shifts_and_flips", [
 K("C20/bitboard/iter-step", ["C20", "C19"], BB + "c20_bb_iter_step", ["<Iter as Iterator>::next", "Bitboard::into_iter"],
   "for all sets: next() is None iff empty, else the least member (a valid square), and the remaining set is the old set minus it", pkg=B)
 K("C20/bitboard/iter-all", ["C20"], BB + "c20_bb_iter_ascending_exactly_once", ["<Iter as Iterator>::next"],
-  "for all sets: iteration yields strictly ascending valid squares, every member exactly once, len() of them", pkg=B, timeout=1500)
+  "for all sets of <= 6 squares: iteration yields strictly ascending valid squares, every member exactly once, len() of them (all sets: induction over iter-step, not mechanised)", pkg=B, timeout=900, bounded="sets with at most 6 members")
 K("C20/bitboard/deposit-bits", ["C20"], BB + "c20_bb_deposit_bits", ["Bitboard::deposit_bits"],
   "for all masks and values: the k-th lowest member of the mask is in the result iff bit k of the value is set; nothing else is", pkg=B, timeout=1500)
 K("C20/consts/lines-colours", ["C20", "C07"], "bitboard_consts::verif_kani::c20_consts_lines", ["bitboard_consts::DIAG", "bitboard_consts::ANTIDIAG", "bitboard_consts::rank", "bitboard_consts::file", "bitboard_consts::LIGHT_SQUARES", "bitboard_consts::DARK_SQUARES"],
@@ -100,13 +100,15 @@ K("C15/attack/leapers-pawns", ["C15", "C19"], A + "c15_leapers_and_pawns", ["att
   "for all 64 squares (both colours): king/knight/pawn attack sets == the sets of on-board squares at the king / knight / pawn-capture offsets; table index in bounds")
 K("C15/attack/bishop", ["C15", "C19"], A + "c15_bishop_all_squares_all_occupancies", ["attack::bishop"],
   "for all 64 squares x all 2^64 occupancies: bishop(sq, occ) == squares reached by sliding diagonally up to and including the first occupied square; lookup pointer in bounds", timeout=1800)
-K("C15/attack/rook-masked-read", ["C15", "C19"], A + "c15_rook_reads_only_masked_occupancy", ["attack::rook", "attack::bishop"],
-  "for all squares x all 2^64 occupancies: rook(sq, occ) == rook(sq, occ & mask[sq]) (same for bishop); every lookup pointer in bounds", timeout=1800)
+MASKED = ["C15/attack/rook-masked-read/sq%02d" % _i for _i in range(64)]
+for _i in range(64):
+    K(MASKED[_i], ["C15", "C19"], A + "c15_rook_masked_sq%02d" % _i, ["attack::rook"],
+      "square %d x all 2^64 occupancies: rook(sq, occ) == rook(sq, occ & mask[sq]); the lookup pointer is in bounds for every occupancy" % _i, timeout=900)
 K("C15/attack/rook-relevant-occupancy", ["C15"], A + "c15_rook_relevant_occupancy_lemma", ["attack::MAGIC_ROOK[..].mask"],
   "for all squares x all 2^64 occupancies: sliding along rank and file sees the occupancy only through occ & mask[sq]; mask[sq] == own rank and file minus the far edge squares minus sq", timeout=1800)
 N("C15/attack/rook-mask-subsets", ["C15"], A + "n15_rook_enumerate_all_mask_subsets", ["attack::rook"],
   "for all 64 squares and all 102400 subsets of mask[sq]: rook(sq, subset) == sliding reference (exhaustive native evaluation of the real lookup)",
-  assumes=["C15/attack/rook-masked-read", "C15/attack/rook-relevant-occupancy"])
+  assumes=MASKED + ["C15/attack/rook-relevant-occupancy"])
 N("C15/attack/bishop-mask-subsets", ["C15"], A + "n15_bishop_enumerate_all_mask_subsets", ["attack::bishop"],
   "redundant cross-check: for all squares and all subsets of the bishop mask, bishop == sliding reference (exhaustive native evaluation)", tier="thorough")
 for _i in range(64):
@@ -124,7 +126,7 @@ K("C15/pawns/advances", ["C15", "C18"], "pawns::verif_kani::c15_pawn_advances", 
 # ---------------------------------------------------------------------------------------------
 # C16 attack and check queries
 # ---------------------------------------------------------------------------------------------
-TABLES = ["C15/attack/leapers-pawns", "C15/attack/bishop", "C15/attack/rook-masked-read", "C15/attack/rook-relevant-occupancy", "C15/attack/rook-mask-subsets"]
+TABLES = ["C15/attack/leapers-pawns", "C15/attack/bishop", "C15/attack/rook-relevant-occupancy", "C15/attack/rook-mask-subsets"]
 MG = "movegen::verif_kani::"
 for _c in ("white", "black"):
     K("C16/attackers/%s" % _c, ["C16", "C19"], MG + "c16_attackers_%s" % _c, ["movegen::do_cell_attackers", "movegen::do_is_cell_attacked", "movegen::cell_attackers", "movegen::is_cell_attacked", "Board::piece2", "Board::piece_diag", "Board::piece_line"],
@@ -133,6 +135,57 @@ for _c in ("white", "black"):
 K("C16/check-queries", ["C16", "C19"], MG + "c16_check_queries", ["Board::is_check", "Board::checkers", "Board::is_opponent_king_attacked", "Board::king_pos"],
   "for all well-formed boards with one king each: king_pos is the king's square (unwrap never fails), checkers == attackers of the mover's king, is_check == non-empty, is_opponent_king_attacked == the other king is attacked by the mover",
   assumes=TABLES)
+
+# ---------------------------------------------------------------------------------------------
+# C06 well-formedness and semilegal validation; C03/C04/C05 step contracts
+# ---------------------------------------------------------------------------------------------
+MB = "moves::base::verif_kani::"
+KINDS = [("simple", "Simple"), ("castle_k", "CastlingKingside"), ("castle_q", "CastlingQueenside"), ("double", "PawnDouble"), ("ep", "Enpassant"),
+         ("promo_n", "PromoteKnight"), ("promo_b", "PromoteBishop"), ("promo_r", "PromoteRook"), ("promo_q", "PromoteQueen")]
+ATT = ["C16/attackers/white", "C16/attackers/black"]
+K("C06/well-formed", ["C06", "C01", "C02", "C19"], MB + "c06_well_formed_all_tuples", ["Move::is_well_formed", "Move::new", "Move::new_unchecked", "Move::kind", "Move::src", "Move::dst", "Move::src_cell"],
+  "for all 10 x 13 x 64 x 64 tuples: is_well_formed == geometric possibility for that kind (reference), Move::new returns Ok(exactly that move) iff well-formed",
+  assumes=["C15/attack/leapers-pawns", "C15/between/all-pairs"])
+K("C06/constructors", ["C06", "C02"], MB + "c06_constructors_well_formed", ["Move::NULL", "Move::from_castling", "MoveKind::promote", "MoveKind::matches_piece"],
+  "NULL and from_castling (both colours, both sides) are well-formed; promote()/matches_piece() tables")
+for _s, _k in KINDS:
+    for _c in ("w", "b"):
+        K("C06/semilegal/%s/%s" % (_k, _c), ["C06", "C01", "C02", "C19"], MB + "c06_semilegal_%s_%s" % (_s, _c), ["Move::is_semilegal", "Move::semi_validate", "moves::base::do_is_move_semilegal", "moves::base::is_queen_semilegal"],
+          "for all well-formed boards (side %s, consistent en-passant mark) x all well-formed moves of kind %s: is_semilegal == pseudo-legal by the rules (reference); all unchecked square arithmetic in bounds" % (_c, _k),
+          assumes=ATT + ["C15/between/all-pairs", "C15/castling/masks", "C06/well-formed"])
+K("C06/semilegal/Null", ["C06", "C02", "C10"], MB + "c06_semilegal_null_never", ["Move::is_semilegal"], "the null move is never semilegal")
+for _s, _k in KINDS + [("null", "Null")]:
+    for _c in ("w", "b"):
+        K("C03/make/%s/%s" % (_k, _c), ["C03", "C04", "C02", "C19"], MB + "c03_make_%s_%s" % (_s, _c),
+          ["moves::base::make_move_unchecked", "moves::base::unmake_move_unchecked", "moves::base::do_make_move", "moves::base::do_unmake_move", "moves::base::update_castling",
+           "moves::base::do_make_pawn_double", "moves::base::do_make_enpassant", "moves::base::do_make_castling_kingside", "moves::base::do_make_castling_queenside", "RawBoard::put", "Board::color_mut", "Board::piece_mut"],
+          "for all well-formed boards (side %s; consistent mark; rights only with king and rook at home; ANY counters) x all pseudo-legal moves of kind %s (incl. those leaving the king attacked): after make, the six raw fields == ref_apply (saturating counters), derived sets well-formed at every square; after unmake every field, the hash and all 16 sets equal the original" % (_c, _k),
+          assumes=ATT + (["C06/semilegal/%s/%s" % (_k, _c)] if _k != "Null" else []))
+        K("C05/hash-step/%s/%s" % (_k, _c), ["C05", "C02"], MB + "c05_hash_%s_%s" % (_s, _c), ["moves::base::do_make_move", "zobrist::pieces", "zobrist::castling", "zobrist::enpassant", "zobrist::castling_delta"],
+          "for all boards as above with hash == from-scratch hash: after make of any pseudo-legal move of kind %s (side %s) the stored hash == from-scratch hash of the new raw position" % (_k, _c),
+          assumes=["C05/scratch/zobrist-hash"])
+K("C05/keys/single-feature", ["C05", "C19"], "zobrist::verif_kani::c05_keys_single_feature_differences", ["zobrist::pieces", "zobrist::castling", "zobrist::enpassant", "zobrist::MOVE_SIDE"],
+  "tables of this build: empty-cell key is 0; keys of two different cells on one square differ; side key != 0; toggling one castling right changes the castling key; en-passant keys are non-zero and pairwise different; every index in range")
+K("C05/keys/castling-delta", ["C05"], "zobrist::verif_kani::c05_castling_delta_keys", ["zobrist::castling_delta"],
+  "both colours: the precombined castling delta == XOR of the king and rook keys on their old and new squares")
+
+BD = "board::verif_kani::"
+K("C05/scratch/zobrist-hash", ["C05", "C19"], BD + "c05_zobrist_hash_is_ref_hash", ["RawBoard::zobrist_hash"],
+  "for all raw boards (13^64 placements, side, rights, mark): zobrist_hash == side key ^ mark key ^ rights key ^ XOR of piece keys of the occupied squares; the result does not depend on either counter", timeout=1800)
+K("C07/insufficient", ["C07"], BD + "c07_insufficient_material", ["Board::is_insufficient_material"],
+  "for all well-formed boards: is_insufficient_material == (besides kings: nothing, or a single knight, or only bishops all on one square colour), counted over the squares",
+  assumes=["C20/consts/lines-colours"])
+K("C07/calc-outcome", ["C07", "C14"], BD + "c07_calc_outcome_precedence", ["Board::calc_outcome", "Board::calc_draw_simple"],
+  "for all well-formed boards with one king each and either answer of has_legal_moves (imported contract): checkmate (won by the side not to move) iff no move and in check; stalemate iff no move and not in check; else insufficient material, else 75-move (clock >= 150), else 50-move (clock >= 100), else none",
+  assumes=["C07/insufficient", "C16/check-queries"] + TABLES)
+K("C11/try-from/accepts", ["C11", "C02"], BD + "c11_try_from_accepts_exactly_valid", ["<Board as TryFrom<RawBoard>>::try_from"],
+  "for all raw boards: try_from is Ok iff (mark on the right rank, <= 16 men a side, exactly one king each, no pawn on rank 1/8, side not to move not in check); on Err the reported condition (with its square / colour) really holds",
+  assumes=ATT, timeout=3000, mem_gb=20)
+K("C11/try-from/normalised", ["C11", "C02", "C05"], BD + "c11_try_from_result_is_normalised_inv", ["<Board as TryFrom<RawBoard>>::try_from"],
+  "for all raw boards accepted: result == input except rights without king/rook at home and a mark without enemy pawn / with an occupied square behind it; derived sets well-formed at every square; stored hash == from-scratch hash",
+  assumes=ATT + ["C05/scratch/zobrist-hash"], timeout=3000, mem_gb=20)
+K("C11/spec/idempotent", ["C11"], BD + "c11_normalise_idempotent_and_valid", [],
+  "spec-level lemma: ref_normalise is idempotent and preserves ref_valid (so re-validating a validated board changes nothing)", timeout=1800)
 
 
 def by_id():
